@@ -32,3 +32,6 @@ package ws
 //@ func (*listener).ServeHTTP
 //@   before call:Upgrade#1 assert matched
 //@   before call:handler#1 assert called("Upgrade")
+//@
+//@ func (wsTran).listener
+//@   ensures isnil(result1) ==> result0 != nil && len(result0.ug.Subprotocols) == 1 && result0.ug.Subprotocols[0] == result0.proto.SelfName + ".sp.nanomsg.org"
